@@ -95,7 +95,9 @@ def make_spec(seed, index: int, tier: str) -> dict:
         # the interrupted build is a rebuild phase of a watching director (edits arrive as file events)
         "watch": r.random() < 0.2,
         # the sub-plan (when the model has one) is deferred once while its steps run (simcases.explicit_project)
-        "defer_sub": r.random() < 0.5,
+        "defer_sub": r.random() < 0.7,
+        # give the model a sub-plan when projgen did not draw one (its last step moves there)
+        "force_sub": r.random() < 0.5,
     }
     if spec["watch"]:
         spec["nmut"] = max(1, spec["nmut"])
@@ -107,6 +109,9 @@ def build_models(spec):
 
     r = random.Random(spec["model_seed"])
     model0 = projgen.gen_model(r, nstep=spec["nstep"])
+    if spec.get("force_sub") and not model0.has_sub and len(model0.steps) >= 2:
+        model0.has_sub = True
+        model0.steps[-1].plan = projgen.SUB
     model1 = model0
     applied = []
     rm = random.Random(spec["mut_seed"])
@@ -219,17 +224,42 @@ def line_names(diffs: list[str]) -> str:
 # ---------------------------------------------------------------------------------------------
 
 
+def fixed_project(name: str):
+    """Hand-written projects that every run includes (all their kill points are enumerated)."""
+    from simdirector import A, Project, plan_file
+
+    if name == "deferred-creator":
+        # `sub` defines `slow`, then amends gen.txt, which is not built yet: `sub` is deferred while `slow`
+        # runs; when gen.txt is there `sub` runs again, detaches the RUNNING `slow` and recycles it.
+        sub = [A.step("slow", inp=["a.txt"], out=["slow.txt"]), A.amend(inp=["gen.txt"]), A.read("gen.txt")]
+        return Project(
+            scripts={"./plan.py": [A.static("a.txt", "sub.py"), A.step("gen", inp=["a.txt"], out=["gen.txt"]),
+                                   A.step("./sub.py", inp=["sub.py"], plan=True)],
+                     "./sub.py": sub,
+                     "gen": [A.read("a.txt"), A.nop(), A.nop(), A.nop(), A.write("gen.txt")],
+                     "slow": [A.read("a.txt"), A.nop(), A.nop(), A.nop(), A.nop(), A.nop(), A.nop(), A.nop(), A.nop(),
+                              A.write("slow.txt")]},
+            files={"a.txt": "A\n", "sub.py": plan_file(sub)})
+    raise ValueError(name)
+
+
 class _Case:
     def __init__(self, spec):
         import projgen
 
         self.spec = spec
         self.projgen = projgen
-        self.model0, self.model1, self.mutations = build_models(spec)
         import simcases
 
-        self.project0 = simcases.explicit_project(self.model0, spec.get("defer_sub", False))
-        self.project1 = simcases.explicit_project(self.model1, spec.get("defer_sub", False))
+        if spec.get("fixed"):
+            self.model0 = self.model1 = projgen.Model()
+            self.mutations = ["fixed:" + spec["fixed"]]
+            self.project0 = fixed_project(spec["fixed"])
+            self.project1 = fixed_project(spec["fixed"])
+        else:
+            self.model0, self.model1, self.mutations = build_models(spec)
+            self.project0 = simcases.explicit_project(self.model0, spec.get("defer_sub", False))
+            self.project1 = simcases.explicit_project(self.model1, spec.get("defer_sub", False))
         self.edits = projgen._edits_between(self.project0, self.project1) if spec["nmut"] else []
         self.resources = self.model1.resources or self.model0.resources
         self.findings: list[dict] = []
@@ -416,6 +446,8 @@ class _Case:
             for label, st, detached in sim.query(SQL_INTERRUPTED):
                 interrupted[label] = (st, detached)
             self.count("interrupted-steps=%d" % min(len(interrupted), 3))
+            if any(st == RUNNING and detached for st, detached in interrupted.values()):
+                self.count("kill-points-with-a-detached-running-step")
             for sig, text in commit_invariants(sim):
                 self.finding(sig, f"database left by a kill at {point}: {text}", point=point)
             state = {"interrupted": {lbl for lbl, (st, _) in interrupted.items() if st == RUNNING}}
@@ -641,6 +673,13 @@ async def search(ctx):
 
     ncase = ctx.budget(12, 240)
     specs = [make_spec(ctx.seed, i, ctx.tier) for i in range(ncase)]
+    # the hand-written deferred-creator project under three schedules, first
+    fixed = []
+    for j, (njob, sched) in enumerate(((3, "fifo"), (3, "random"), (2, "lifo"))):
+        fixed.append({"id": [ctx.seed, -1 - j], "fixed": "deferred-creator", "model_seed": 1000 * ctx.seed + j,
+                      "nstep": 3, "njob": njob, "sched": sched, "restart_sched": "random" if j else "fifo", "nmut": 0,
+                      "mut_seed": 0, "step_points": True, "watch": False})
+    specs = fixed + specs
     soft = 45 if ctx.tier == "quick" else 900
     ran = 0
     for status, task, res in simpool.run("props.c05", "run_case", specs, deadline_s=soft + 120, soft_s=soft):
